@@ -43,7 +43,8 @@ class TopocentricFrame(frames.Frame):
 
         from ..propagators.listeners import stations_listeners, Listener
 
-        listeners = kwargs.setdefault("listeners", [])
+        # Work on a copy, not to extend the list of the caller
+        listeners = kwargs["listeners"] = list(kwargs.get("listeners", []))
         events = kwargs.pop("events", None)
         event_classes = tuple()
 
@@ -65,8 +66,9 @@ class TopocentricFrame(frames.Frame):
             event_classes = tuple(listener.event for listener in sta_list)
 
         for point in orb.iter(**kwargs):
-            point.frame = self
-            point.form = "spherical"
+            # Convert a copy: the yielded object is also the 'previous sample' of
+            # the listeners, which shall stay in its own frame
+            point = point.copy(frame=self, form="spherical")
 
             # Not very clean !
             if point.phi < 0 and not isinstance(point.event, event_classes):
